@@ -143,13 +143,19 @@ static int ref_http_version(const ref_u8 *p, size_t n, int *major, int *minor)
  *           may contain beyond that is URI syntax (property C28).
  * permitted leniency used here: trailing SP before CRLF is ignored ("ignoring
  *           preceding or trailing whitespace", RFC 9112 3).
- * The decomposition is unique: the line (minus trailing SP) must contain
- * exactly two SP, and the target no other white space (HTAB, VT, FF, bare CR).
+ * wellformed: the line (minus trailing SP) has the shape  M SP T SP V  where M
+ *           contains no SP, V is an HTTP-version and T is not empty.  When T
+ *           contains no white space the decomposition is the RFC's; when it
+ *           does, this is the split libevent documents for its deliberately
+ *           non-conformant server side (EVHTTP_URI_NONCONFORMANT: targets such
+ *           as "/test nonconformant" are served): M ends at the FIRST SP, V
+ *           starts after the LAST SP.  target_has_ws tells the two apart.
  * A method that is not a token leaves the line "wellformed" but not "strict":
  * such a request is answered 501/400 later, the target/version split is the same. */
 struct ref_reqline {
-	int wellformed;      /* three words separated by single SP, version syntactically valid */
-	int strict;          /* wellformed, method is a token, no trailing SP */
+	int wellformed;      /* M SP T SP V as described above, version syntactically valid */
+	int strict;          /* RFC 9112 grammar: wellformed, method is a token, target is one word, no trailing SP */
+	int target_has_ws;   /* T contains SP / HTAB / VT / FF / CR (non-conformant, accepted on purpose) */
 	size_t m_off, m_len; /* method */
 	size_t t_off, t_len; /* request-target */
 	size_t v_off, v_len; /* HTTP-version */
@@ -159,35 +165,37 @@ struct ref_reqline {
 static void ref_reqline_parse(const ref_u8 *line, size_t len, struct ref_reqline *r)
 {
 	size_t end = len, i, nsp = 0, sp1 = 0, sp2 = 0;
-	r->wellformed = r->strict = 0;
+	r->wellformed = r->strict = r->target_has_ws = 0;
 	r->m_off = r->m_len = r->t_off = r->t_len = r->v_off = r->v_len = 0;
 	r->major = r->minor = -1;
 	r->method = 0;
-	while (end > 0 && line[end - 1] == ' ')
+	for (i = 0; i < REF_MAXLINE && end > 0 && line[end - 1] == ' '; i++)
 		end--;
-	for (i = 0; i < end; i++) {
+	for (i = 0; i < REF_MAXLINE && i < end; i++) {
 		if (line[i] == ' ') {
 			if (nsp == 0) sp1 = i;
-			else if (nsp == 1) sp2 = i;
+			sp2 = i; /* last SP so far */
 			nsp++;
 		}
 	}
-	if (nsp != 2)
+	if (nsp < 2)
 		return;
 	r->m_off = 0; r->m_len = sp1;
 	r->t_off = sp1 + 1; r->t_len = sp2 - sp1 - 1;
 	r->v_off = sp2 + 1; r->v_len = end - sp2 - 1;
 	if (r->t_len == 0)
 		return;
-	/* the target is one word: no HTAB / VT / FF / bare CR (nor LF, NUL) inside it */
-	for (i = r->t_off; i < sp2; i++)
-		if (ref_is_lws(line[i]) || line[i] == '\n' || line[i] == '\0')
-			return;
+	for (i = r->t_off; i < REF_MAXLINE && i < sp2; i++) {
+		if (line[i] == '\n' || line[i] == '\0')
+			return; /* never part of a line / of a target */
+		if (ref_is_lws(line[i]))
+			r->target_has_ws = 1;
+	}
 	if (!ref_http_version(line + r->v_off, r->v_len, &r->major, &r->minor))
 		return;
 	r->wellformed = 1;
 	r->method = ref_method(line + r->m_off, r->m_len);
-	r->strict = ref_is_token(line + r->m_off, r->m_len) && end == len;
+	r->strict = ref_is_token(line + r->m_off, r->m_len) && end == len && !r->target_has_ws;
 }
 
 /* ---- status-line -------------------------------------------------------------
